@@ -1,0 +1,127 @@
+//go:build verif
+
+package zygo
+
+import (
+	"fmt"
+	"sort"
+	"strings"
+)
+
+// Verification hooks (build tag "verif"): read-only accessors over
+// interpreter bookkeeping, and a VM step budget. Nothing here is
+// compiled into a normal build.
+
+// VerifDepths reports the sizes of the four VM stacks, the program
+// counter and the length of the main function.
+type VerifDepths struct {
+	Data, Scope, Addr, Loop, PC, MainLen int
+	InMain                               bool
+}
+
+func (env *Zlisp) VerifDepths() VerifDepths {
+	d := VerifDepths{
+		Data:  env.datastack.Size(),
+		Scope: env.linearstack.Size(),
+		Addr:  env.addrstack.Size(),
+		PC:    env.pc,
+	}
+	if env.loopstack != nil {
+		d.Loop = env.loopstack.Size()
+	}
+	if env.mainfunc != nil {
+		d.MainLen = len(env.mainfunc.fun)
+	}
+	d.InMain = env.curfunc == env.mainfunc
+	return d
+}
+
+// VerifGlobalNames lists, sorted, every name bound in the global scope.
+func (env *Zlisp) VerifGlobalNames() []string {
+	glob := env.linearstack.elements[0].(*Scope)
+	names := make([]string, 0, len(glob.Map))
+	for num := range glob.Map {
+		names = append(names, env.revsymtable[num])
+	}
+	sort.Strings(names)
+	return names
+}
+
+// VerifGlobal returns the value bound to name in the global scope.
+func (env *Zlisp) VerifGlobal(name string) (Sexp, bool) {
+	num, ok := env.symtable[name]
+	if !ok {
+		return nil, false
+	}
+	glob := env.linearstack.elements[0].(*Scope)
+	v, ok := glob.Map[num]
+	return v, ok
+}
+
+// VerifMacroNames lists, sorted, the names of all macros.
+func (env *Zlisp) VerifMacroNames() []string {
+	names := make([]string, 0, len(env.macros))
+	for num := range env.macros {
+		names = append(names, env.revsymtable[num])
+	}
+	sort.Strings(names)
+	return names
+}
+
+// VerifSymtab returns copies of the name->number and number->name tables.
+func (env *Zlisp) VerifSymtab() (map[string]int, map[int]string) {
+	a := make(map[string]int, len(env.symtable))
+	for k, v := range env.symtable {
+		a[k] = v
+	}
+	b := make(map[int]string, len(env.revsymtable))
+	for k, v := range env.revsymtable {
+		b[k] = v
+	}
+	return a, b
+}
+
+func (env *Zlisp) VerifNextSymbol() int { return env.nextsymbol }
+
+func (env *Zlisp) VerifParser() *Parser { return env.parser }
+
+// VerifNumber exposes a symbol's interned number.
+func (sym *SexpSymbol) VerifNumber() int { return sym.number }
+
+// VerifLexerResidue renders every piece of lexer/parser state that can
+// survive from one load to the next.
+func (env *Zlisp) VerifLexerResidue() string {
+	lx := env.parser.lexer
+	var sb strings.Builder
+	fmt.Fprintf(&sb, "state=%d buf=%q prevrune=%q pre=%q ntok=%d", int(lx.state), lx.buffer.String(), lx.prevrune, lx.preBuiltinRune, len(lx.tokens))
+	for _, t := range lx.tokens {
+		fmt.Fprintf(&sb, " tok(%d,%q)", int(t.typ), t.str)
+	}
+	fmt.Fprintf(&sb, " prev(%d,%q) pprev(%d,%q)", int(lx.prevToken.typ), lx.prevToken.str, int(lx.prevPrevToken.typ), lx.prevPrevToken.str)
+	fmt.Fprintf(&sb, " nstream=%d hasstream=%v", len(lx.next), lx.stream != nil)
+	fmt.Fprintf(&sb, " priori=%d ring=%q", lx.priori, string(lx.priorRune[:]))
+	fmt.Fprintf(&sb, " inBacktick=%v recur=%d", env.parser.inBacktick, env.parser.recur)
+	return sb.String()
+}
+
+// step budget: process-global on purpose, so that duplicates made for
+// macro expansion and nested Run calls draw on the same budget.
+var verifBudget int64 // 0 = unlimited
+var verifSteps int64
+
+type VerifBudgetExceeded struct{ Steps int64 }
+
+func (e *VerifBudgetExceeded) Error() string {
+	return fmt.Sprintf("verif: step budget exceeded after %d VM steps", e.Steps)
+}
+
+func VerifSetStepBudget(n int64) { verifBudget = n; verifSteps = 0 }
+func VerifSteps() int64          { return verifSteps }
+
+func (env *Zlisp) verifStep() error {
+	verifSteps++
+	if verifBudget > 0 && verifSteps > verifBudget {
+		return &VerifBudgetExceeded{Steps: verifSteps}
+	}
+	return nil
+}
